@@ -717,6 +717,48 @@ pub fn run(ctx: Arc<Ctx>) {
 			}
 		}
 	}
+	// supplementary, labelled sample (sound, not exhaustive): the in-tree user TileConverter::process_stream
+	// under real concurrency; its per-tile closure is not harness-supplied, so it cannot be gated
+	{
+		use versatiles_container::tile_converter::TileConverter;
+		use versatiles_core::types::TileCompression;
+		let mut mismatches = 0u64;
+		let mut total = 0u64;
+		let mut first: Option<String> = None;
+		for (src, dst, force) in [(TileCompression::Uncompressed, TileCompression::Gzip, false), (TileCompression::Uncompressed, TileCompression::Brotli, false), (TileCompression::Gzip, TileCompression::Brotli, true)] {
+			let conv = TileConverter::new_tile_recompressor(&src, &dst, force).unwrap();
+			for round in 0..3usize {
+				// one distinct tile, then several byte-identical big tiles, then distinct ones again
+				let mut items: Vec<(TileCoord3, Vec<u8>)> = vec![];
+				let big: Vec<u8> = (0..(400_000 + round * 1000)).map(|i| (i % 251) as u8).collect();
+				items.push((coord_of(0), format!("first tile of round {round}").into_bytes()));
+				for i in 1..6 {
+					items.push((coord_of(i), big.clone()));
+				}
+				for i in 6..10 {
+					items.push((coord_of(i), format!("tail {i} {round}").repeat(1000).into_bytes()));
+				}
+				let enc = |d: &[u8], c: TileCompression| crate::codec::encode_with(crate::containers::comp_id(c), d);
+				let input: Vec<(TileCoord3, Blob)> = items.iter().map(|(c, d)| (*c, Blob::from(enc(d, src)))).collect();
+				let out: Vec<(TileCoord3, Blob)> = rt.block_on(async { conv.process_stream(TileStream::from_vec(input)).collect().await });
+				for (c, d) in &items {
+					total += 1;
+					let got = out.iter().filter(|(oc, _)| oc == c).collect::<Vec<_>>();
+					let ok = got.len() == 1 && crate::codec::decode_with(crate::containers::comp_id(dst), got[0].1.as_slice()).ok().as_deref() == Some(d.as_slice());
+					if !ok {
+						mismatches += 1;
+						if first.is_none() {
+							first = Some(format!("{src:?}->{dst:?} round {round}: tile at ({},{}) came out {} time(s) and does not decode to its own input", c.x, c.y, got.len()));
+						}
+					}
+				}
+			}
+		}
+		ctx.extra("process_stream_free_running_sample", json!({"note": "supplementary labelled sample: TileConverter::process_stream on a 10-worker runtime with byte-identical big tiles after a distinct one; a mismatch is a sound witness, silence proves nothing", "tiles": total, "mismatches": mismatches}));
+		if let Some(f) = first {
+			ctx.violation("TileConverter::process_stream: free-running run pairs a tile with another tile's result", &format!("{mismatches} of {total} tiles wrong; first: {f}"), json!({"op": "process_stream-sample"}));
+		}
+	}
 	ctx.extra("large_stream_families", json!({"sizes": big, "disciplines": ["reverse", "rotate", "evens-then-odds"], "note": "fixed deterministic families, not exhaustive"}));
 	ctx.extra("not_covered", json!("the in-tree users TileConverter::process_stream and from_debug are not gated (their callbacks are not harness-supplied); they are covered functionally under a real multi-thread runtime by C04 and C02"));
 	ctx.exhaustive(all_exhaustive);
